@@ -41,7 +41,7 @@ def build_harness(sdir, race=False):
     if race:
         cmd.append("-race")
     cmd.append(".")
-    p = subprocess.run(cmd, cwd=REPO, env=GOENV, stdout=subprocess.PIPE, stderr=subprocess.STDOUT, text=True)
+    p = subprocess.run(cmd, cwd=REPO, env=GOENV, stdout=subprocess.PIPE, stderr=subprocess.STDOUT, text=True, errors="replace")
     if p.returncode != 0 or not os.path.exists(out):
         raise NoVerdict("harness build failed against %s:\n%s" % (REPO, p.stdout[-4000:]))
     return out
@@ -54,7 +54,7 @@ def run_harness(binary, mode, out, seed, tier, infile="", timeout=3000, extra_en
     if extra_env:
         env.update(extra_env)
     p = subprocess.run([binary, "-test.run", "^TestVerif$", "-test.timeout", "%ds" % timeout, "-test.count", "1"],
-                       cwd=os.path.dirname(binary), env=env, stdout=subprocess.PIPE, stderr=subprocess.STDOUT, text=True,
+                       cwd=os.path.dirname(binary), env=env, stdout=subprocess.PIPE, stderr=subprocess.STDOUT, text=True, errors="replace",
                        timeout=timeout + 60)
     return p.returncode, p.stdout
 
@@ -83,7 +83,7 @@ def tlc(sdir, module, cfg, workers=1, timeout=1800, heap="4g", extra=None, const
     cmd.append(module + ".tla")
     t0 = time.time()
     try:
-        p = subprocess.run(cmd, cwd=wd, stdout=subprocess.PIPE, stderr=subprocess.STDOUT, text=True, timeout=timeout)
+        p = subprocess.run(cmd, cwd=wd, stdout=subprocess.PIPE, stderr=subprocess.STDOUT, text=True, errors="replace", timeout=timeout)
     except subprocess.TimeoutExpired:
         raise NoVerdict("TLC timed out on %s/%s" % (module, cfg))
     out = p.stdout
@@ -112,10 +112,11 @@ def tlc_printed(out):
 
 
 def write_evidence(pid, tier, seed, level, coverage, wall, violations, assumptions):
-    os.makedirs(os.path.join(VERIF, "evidence"), exist_ok=True)
+    evdir = os.environ.get("VERIF_EVIDENCE_DIR") or os.path.join(VERIF, "evidence")
+    os.makedirs(evdir, exist_ok=True)
     ev = {"property_id": pid, "tier": tier, "seed": int(seed), "level": level, "coverage": coverage,
           "assumptions": assumptions, "wall_s": round(wall, 2), "violations": violations}
-    with open(os.path.join(VERIF, "evidence", pid + ".json"), "w") as fh:
+    with open(os.path.join(evdir, pid + ".json"), "w") as fh:
         json.dump(ev, fh, indent=1)
     return ev
 
